@@ -6,7 +6,7 @@
 From Coq Require Import QArith List Bool Arith.
 From NurbsV Require Import Base.Res Base.QList Spec.KnotSpec Gen.Consts Model.KV Model.Basis Model.CurveM Model.Ops
   Model.CurveOps Model.Linalg Model.Quadrature Model.LeastSq Model.CurveLS.
-From NurbsV Require Import Proofs.MatProofs Proofs.RemoveBasic.
+From NurbsV Require Import Proofs.MatProofs Proofs.LSProofs Proofs.RemoveBasic Proofs.UndoProofs.
 Import ListNotations.
 Open Scope Q_scope.
 Theorem C05_knots :
@@ -52,6 +52,100 @@ Theorem C05_solves_uniquely :
        invert M = Ok M' -> length x = length M -> veq (mvec M x) b -> veq x (mvec M' b).
 Proof. exact invert_unique_solution. Qed.
 Print Assumptions C05_solves_uniquely.
+
+(* ---- knot removal undoes knot insertion EXACTLY and is accepted under every tolerance (Proofs/UndoProofs.v): from Boehm
+   (C04) the coarse basis is the fine basis contracted with the insertion matrix at every node, so the projection matrix is
+   a left inverse of the insertion matrix - for the unconstrained and for the interpolation-constrained solve that
+   knot_remove uses - and the error functional vanishes. ---- *)
+Theorem C05_undoes_knot_insert :
+  forall (c : curve) (P : list pt) (d : nat) (nodes : list Q) (c1 c2 : curve) (tol : option Q),
+       cW c = None ->
+       cP c = Some P ->
+       WF (kvec (ckv c)) (cdeg c) ->
+       length P = cnpts c ->
+       Forall (fun q : pt => length q = d) P ->
+       c_knot_insert c nodes = Ok c1 ->
+       kdeg (ckv c1) = cdeg c ->
+       c_knot_remove c1 nodes tol = Ok c2 ->
+       exists P2 : list pt,
+         cP c2 = Some P2 /\
+         Forall2 (Forall2 Qeq) P2 P /\
+         cW c2 = None /\ Forall2 Qeq (kvec (ckv c2)) (kvec (ckv c)) /\ kdeg (ckv c2) = cdeg c.
+Proof. exact knot_remove_undoes_knot_insert. Qed.
+Print Assumptions C05_undoes_knot_insert.
+
+Theorem C05_undo_error_is_zero :
+  forall (c : curve) (P : list pt) (d : nat) (nodes : list Q) (c1 : curve) (knew : kv) (T E : mat),
+       cW c = None ->
+       cP c = Some P ->
+       WF (kvec (ckv c)) (cdeg c) ->
+       length P = cnpts c ->
+       Forall (fun q : pt => length q = d) P ->
+       c_knot_insert c nodes = Ok c1 ->
+       kdeg (ckv c1) = cdeg c ->
+       kremove (ckv c1) nodes = Ok knew ->
+       spline2spline (ckv c1) knew (knots_opt knew) = Ok (T, E) ->
+       exists P1 : list pt, cP c1 = Some P1 /\ fit_error E P1 == 0.
+Proof. exact knot_remove_after_insert_error_zero. Qed.
+Print Assumptions C05_undo_error_is_zero.
+
+Theorem C05_undo_always_accepted :
+  forall (c : curve) (P : list pt) (d : nat) (nodes : list Q) (c1 : curve) (knew : kv) 
+         (T E : mat) (t : Q),
+       cW c = None ->
+       cP c = Some P ->
+       WF (kvec (ckv c)) (cdeg c) ->
+       length P = cnpts c ->
+       Forall (fun q : pt => length q = d) P ->
+       c_knot_insert c nodes = Ok c1 ->
+       kdeg (ckv c1) = cdeg c ->
+       kremove (ckv c1) nodes = Ok knew ->
+       spline2spline (ckv c1) knew (knots_opt knew) = Ok (T, E) ->
+       0 <= t -> exists c2 : curve, c_knot_remove c1 nodes (Some t) = Ok c2.
+Proof. exact knot_remove_after_insert_succeeds. Qed.
+Print Assumptions C05_undo_always_accepted.
+
+Theorem C05_undo_only_certificates_can_fail :
+  forall (c : curve) (P : list pt) (d : nat) (nodes : list Q) (c1 : curve),
+       cW c = None ->
+       cP c = Some P ->
+       WF (kvec (ckv c)) (cdeg c) ->
+       length P = cnpts c ->
+       Forall (fun q : pt => length q = d) P ->
+       c_knot_insert c nodes = Ok c1 ->
+       kdeg (ckv c1) = cdeg c ->
+       exists knew : kv,
+         kremove (ckv c1) nodes = Ok knew /\
+         (forall (T E : mat) (t : Q),
+          spline2spline (ckv c1) knew (knots_opt knew) = Ok (T, E) ->
+          0 <= t -> exists c2 : curve, c_knot_remove c1 nodes (Some t) = Ok c2).
+Proof. exact knot_remove_after_insert_only_uncertified. Qed.
+Print Assumptions C05_undo_only_certificates_can_fail.
+
+Theorem C05_vector_restored :
+  forall (k : kv) (nodes : list Q) (kf knew : kv),
+       WF (kvec k) (kdeg k) ->
+       kinsert k nodes = Ok kf ->
+       kremove kf nodes = Ok knew ->
+       WF (kvec knew) (kdeg knew) /\ Forall2 Qeq (kvec knew) (kvec k) /\ kdeg knew = kdeg k.
+Proof. exact kremove_kinsert. Qed.
+Print Assumptions C05_vector_restored.
+
+Theorem C05_projection_left_inverse_of_insertion :
+  forall (k kf kc : kv) (nodes : list Q) (M : mat),
+       WF (kvec k) (kdeg k) ->
+       knot_insert k nodes = Ok M ->
+       kinsert k nodes = Ok kf ->
+       kdeg kf = kdeg k ->
+       WF (kvec kc) (kdeg kc) ->
+       Forall2 Qeq (kvec kc) (kvec k) ->
+       kdeg kc = kdeg k ->
+       forall (ns : list Q) (T E : mat),
+       spline2spline kf kc (Some ns) = Ok (T, E) ->
+       (0 < length ns)%nat -> meq (mmul_n (knpts kc) T M) (ident (knpts kc)).
+Proof. exact U3_left_inverse. Qed.
+Print Assumptions C05_projection_left_inverse_of_insertion.
+
 
 (* non-vacuity: removing the knot 1/2 from a curve where it is exactly removable succeeds and restores [1;2;-3] *)
 Example C05_nonvacuous :
